@@ -342,8 +342,11 @@ impl NameWorld {
                         fails.push(("name-static-flag".into(), format!("slot {i} ({text:?}): as_static_str().is_some() = {}, created static = {}", st.is_some(), cell.is_none())));
                     }
                     if let Some(s) = st { if s != text { fails.push(("name-text".into(), format!("slot {i}: as_static_str() = {s:?}, supplied {text:?}"))); } }
-                    let tca = n.to_cloned_arc();
-                    if tca.is_some() == st.is_some() {
+                    // a name whose heap/static flag is already wrong must not be dereferenced as an Arc
+                    // (Arc::from_raw on a pointer that is not one): report the flag and stop the history
+                    let flag_bad = st.is_some() != cell.is_none();
+                    let tca = if flag_bad { None } else { n.to_cloned_arc() };
+                    if !flag_bad && tca.is_some() == st.is_some() {
                         fails.push(("name-static-flag".into(), format!("slot {i} ({text:?}): to_cloned_arc and as_static_str are both {}", if st.is_some() { "Some" } else { "None" })));
                     }
                     if let Some(a) = &tca { if &**a != text.as_str() { fails.push(("name-text".into(), format!("slot {i}: to_cloned_arc() = {:?}, supplied {text:?}", &**a))); } }
@@ -393,6 +396,7 @@ fn run_name_history(ctx: &mut Ctx, spans: &mut Spans, pool: usize, ops: &[NOp]) 
     let mut poisoned = false;
     for op in &all {
         fields.push(op.enc());
+        ctx.begin(&format!("name history: {}", fields.join(" ")));
         let before = w.fails.len();
         let res = match catch(|| w.step(op, spans)) {
             Ok(r) => r,
@@ -687,6 +691,7 @@ fn run_node_history(ctx: &mut Ctx, spans: &mut Spans, pool: usize, ops: &[DOp]) 
     let mut nontrivial = false;
     for op in &all {
         fields.push(op.enc());
+        ctx.begin(&format!("node history: {}", fields.join(" ")));
         let before = w.fails.len();
         let res = match catch(|| w.step(op, spans)) {
             Ok(r) => r,
